@@ -86,6 +86,29 @@ impl InscriptionUpdater<'_, '_> {
 
     let envelopes = ParsedEnvelope::from_transaction(tx);
     let has_new_inscriptions = !envelopes.is_empty();
+
+    // a pointer may move an inscription onto a sat of a later input, whose
+    // inscriptions have not been added to `inscribed_offsets` yet
+    let mut transferred_offsets = HashSet::new();
+    if envelopes
+      .iter()
+      .any(|envelope| envelope.payload.pointer.is_some())
+    {
+      let mut input_offset = 0;
+      for (input_index, txin) in tx.input.iter().enumerate() {
+        if txin.previous_output.is_null() {
+          input_offset += Height(self.height).subsidy();
+          continue;
+        }
+
+        for (_sequence_number, offset) in input_utxo_entries[input_index].parse_inscriptions() {
+          transferred_offsets.insert(input_offset + offset);
+        }
+
+        input_offset += input_utxo_entries[input_index].total_value();
+      }
+    }
+
     let mut envelopes = envelopes.into_iter().peekable();
 
     for (input_index, txin) in tx.input.iter().enumerate() {
@@ -205,7 +228,8 @@ impl InscriptionUpdater<'_, '_> {
             gallery: !inscription.payload.properties().gallery.is_empty(),
             hidden: inscription.payload.hidden(),
             parents: inscription.payload.parents(),
-            reinscription: inscribed_offsets.contains_key(&offset),
+            reinscription: inscribed_offsets.contains_key(&offset)
+              || transferred_offsets.contains(&offset),
             unbound: input_value == 0
               || curse == Some(Curse::UnrecognizedEvenField)
               || inscription.payload.unrecognized_even_field,
